@@ -10,12 +10,14 @@ rank; the independent oracle is the numerical operator Schmidt rank of the dense
 """
 from __future__ import annotations
 
+import copy
 import traceback
 from collections import Counter, defaultdict
 from fractions import Fraction
 
 import numpy as np
 
+import lib
 from lib import Prop, coq_eval, coq_q, coq_nat, coq_list
 import util
 from util import TTNO
@@ -137,6 +139,34 @@ def coq_mat(M):
     return coq_list(M, lambda row: coq_list(row, coq_q))
 
 
+SYM_RENAME = {"g1": "a", "g2": "b", "g3": "c", "g4": "d", "g5": "e", "g6": "f"}
+
+
+def _ren(x):
+    if isinstance(x, tuple) and len(x) == 2 and isinstance(x[1], str):
+        return (x[0], SYM_RENAME.get(x[1], x[1]))
+    return x
+
+
+def sge_calls_encoded(calls):
+    """[(coq literal of the input matrix, encoded result)] in the conventions of C13 (symbols renamed to its alphabet)"""
+    from props import c13
+    out = []
+    for gin, res in calls:
+        try:
+            M = [[_ren(x) for x in row] for row in gin]
+            lit = c13.coq_mat(M)
+            if isinstance(res, BaseException):
+                enc = "EXC " + type(res).__name__
+            else:
+                L, Mm, R = res
+                enc = c13.out_result((L, [[_ren(x) for x in row] for row in Mm], R))
+            out.append([lit, enc, [[c13.entry_str(x) for x in row] for row in M]])
+        except Exception as e:  # noqa
+            out.append([None, f"UNENCODABLE {type(e).__name__}: {e}", None])
+    return out
+
+
 class C12(Prop):
     id = "C12"
     title = "SGE bond dimensions are minimal"
@@ -152,15 +182,31 @@ class C12(Prop):
               "Gamma = X*Y through an inner dimension k < r, for all matrices and all X, Y (C12_min_cert_sound; core lemma C12_kernel_vector: k equations "
               "in r > k unknowns over Q have a non-trivial solution)"),
         ("F", "single_term_bonds_one: in the single-term diagram every edge carries exactly one vertex (C12_single_term_bonds_one), for every tree"),
+        ("F", "C12_numeric_minimal: for EVERY numeric coefficient matrix M (all sizes m x n; every entry a rational constant, i.e. all coefficient "
+              "symbols are the unit '1') without a zero row or column, the model of symbolic_gaussian_elimination_fraction.gaussian_elimination "
+              "(SGE/Model.v, the function the C13 check ties exactly to the code) returns L (m x r), M' (r x r, diagonal with non-zero diagonal), "
+              "R (r x n) with L*M'*R = M, and M factors through NO inner dimension k < r whatever X (m x k), Y (k x n) over Q: r = rank M "
+              "(C12_numeric_factor: the easy direction; C12_last_round: a round of row+column elimination that deletes nothing ends square diagonal; "
+              "proved via loop invariants: every iteration and the deparallelisation preserve 'factors through k' and 'no zero line'). "
+              "Not covered: entries with coefficient symbols (there minimality fails for several symbols: known finding C12-symbolic-suboptimal), "
+              "matrices with a zero line (the 2 x 2 zero matrix is returned unreduced: C12_numeric_zero_line_example)"),
         ("I", "for every explored (tree, Hamiltonian) and every edge e: min_cert accepts the harness-built minor of Gamma_e by vm_compute => rank Gamma_e >= r "
               "at the substituted primes, hence over Q(symbols); the minor's determinant computed by the Coq Laplace expansion equals the harness's"),
+        ("I", "call-path tie: every gaussian_elimination call made by the pipeline while it builds the TTNO of an explored case (recorded at the "
+              "state_diagram module boundary: input matrix, returned L, M', R) is replayed on SGE/Model.v by vm_compute and must agree exactly; a recorded "
+              "known finding is attributed only to constructions whose elimination calls all agree with the model of the unchanged algorithm"),
         ("V", "ttno.bond_dims()[e] == max(r, 1) and == number of vertices of the exported diagram on e (>= is then a consequence of exactness, <= is the observation)"),
         ("V", "oracle: numerical operator Schmidt rank of the dense Hamiltonian across e (SVD, relative threshold 1e-9, generic random operator and "
               "coefficient values) equals the bond dimension; single-term Hamiltonians give bond dimension 1 everywhere"),
     ]
     trusted_base = ["the link 'a TTNO with bond k on e that represents H exactly factors Gamma_e through k' (operator strings on either side are linearly "
                     "independent for generic operator values) is the standard argument and is not formalised; what is kernel-checked is rank Gamma_e >= r",
-                    "the universal optimality of the SGE pipeline is not proved (it needs the pipeline model); minimality is certified per explored instance",
+                    "universal optimality is proved only for the elimination on numeric coefficient matrices (C12_numeric_minimal); with coefficient symbols it is "
+                    "certified per explored instance (and false for several symbols: known finding C12-symbolic-suboptimal)",
+                    "the link 'coefficient matrix Gamma_e of the cut -> bond dimension of the built TTNO on e' (_setup_gamma_matrix builds Gamma_e without zero "
+                    "lines; the bond is the minimum vertex cover of the support of the reduced matrix, = r for a diagonal one; _apply_bipartite_to_gamma_u keeps the "
+                    "smaller of the two covers; hyperedge reconnection) is not modelled: it is validated per explored instance (bond_dims()[e] == certified rank); "
+                    "the tie of SGE/Model.v to the code is the C13 check",
                     "numpy SVD for the numerical Schmidt rank"]
     assumptions = ["pairwise distinct operator strings after padding; generic operator values; distinct symbols independent"]
 
@@ -236,6 +282,38 @@ class C12(Prop):
                         terms.append([1, 1, f"g{i + 1}", [[u, f"A{i}_3"], [v, f"A{j}_3"]]])
             cases.append({"kind": "ham", "method": "SGE", "children": ch, "phys": phys, "terms": terms, "nlabels": 5, "coefmode": "sym",
                           "dupmode": "none", "struct": "rowsym", "seed": rng.randrange(10 ** 6), "group": 10000 + k})
+        # "part-symbolic" family: a rank-deficient rational coefficient matrix across one edge (product of small integer
+        # factors, so rows AND columns are dependent in a non-parallel way) in which a few entries carry the single symbol g1:
+        # the elimination needs several row/column sweeps; unit/rational entries alone never do
+        for k in range(ctx.scale(40, 400) * budget_scale):
+            ch = rng.choice([[[1], []], [[1], [2], []], [[1, 2], [], []]])
+            n = len(ch)
+            phys = [3] * n
+            leaves = [i for i in range(n) if not ch[i]]
+            u = 0 if len(leaves) < 2 or rng.random() < 0.5 else leaves[0]
+            v = leaves[-1]
+            if u == v:
+                continue
+            r, c = rng.choice([4, 5, 5, 6]), rng.choice([4, 5, 5, 6])
+            kk = rng.choice([2, 3])
+            X = [[rng.choice([0, 0, 1, 1, -1, 2]) for _ in range(kk)] for _ in range(r)]
+            Y = [[rng.choice([0, 0, 1, 1, -1, 2]) for _ in range(c)] for _ in range(kk)]
+            G = [[sum(X[i][l] * Y[l][j] for l in range(kk)) for j in range(c)] for i in range(r)]
+            nz = [(i, j) for i in range(r) for j in range(c) if G[i][j] != 0]
+            if len(nz) < 4:
+                continue
+            sym = set(rng.sample(nz, rng.choice([1, 2, 2, 3])))
+            if rng.random() < 0.5:       # plus a symbolic entry where the rational matrix has a zero
+                zs = [(i, j) for i in range(r) for j in range(c) if G[i][j] == 0]
+                if zs:
+                    z = rng.choice(zs)
+                    G[z[0]][z[1]] = 1
+                    sym.add(z)
+            terms = [[G[i][j], 1, "g1" if (i, j) in sym else "1", [[u, f"A{i}_3"], [v, f"A{j}_3"]]]
+                     for i in range(r) for j in range(c) if G[i][j] != 0]
+            rng.shuffle(terms)
+            cases.append({"kind": "ham", "method": "SGE", "children": ch, "phys": phys, "terms": terms, "nlabels": 6, "coefmode": "sym",
+                          "dupmode": "none", "struct": "partsym", "seed": rng.randrange(10 ** 6), "group": 20000 + k})
         return cases
 
     def nontrivial(self, case):
@@ -265,13 +343,33 @@ class C12(Prop):
         ids = [nid(i) for i in pre]
         dims = {nid(i): case["phys"][i] for i in range(len(ch))}
         captured = {}
+        # every symbolic Gaussian elimination the pipeline performs (input matrix, result), for the call-path tie with SGE/Model.v
+        import pytreenet.ttno.state_diagram as sdm
+        calls = []
+        orig_ge = sdm.gaussian_elimination
+
+        def rec_ge(G, *a, **kw):
+            gin = copy.deepcopy(G)
+            try:
+                res = orig_ge(G, *a, **kw)
+            except Exception as e:  # noqa
+                calls.append((gin, e))
+                raise
+            calls.append((gin, copy.deepcopy(res)))
+            return res
+        sdm.gaussian_elimination = rec_ge
         try:
             with spy_state_diagram(captured):
                 ttno = TTNO.from_hamiltonian(ham, ttns, finder("SGE"))
         except Exception as e:  # noqa
-            ob["exception"] = f"{type(e).__name__}: {e}"
+            ob["sge_calls"] = sge_calls_encoded(calls)
+            site = traceback.extract_tb(e.__traceback__)[-1].name
+            ob["exception"] = f"{type(e).__name__}: {e} [in {site}]"
             ob["tb"] = traceback.format_exc()[-1200:]
             return ob
+        finally:
+            sdm.gaussian_elimination = orig_ge
+        ob["sge_calls"] = sge_calls_encoded(calls)
         bd = ttno.bond_dims()
         par = parents_of(ch)
         ob["bond"] = {}
@@ -334,6 +432,43 @@ class C12(Prop):
                 ok += 1
             else:
                 fails.append(f"certificate rejected for edge {e} of {cases[k]}")
+        # call-path tie: SGE/Model.v (the model C13 ties to gaussian_elimination on its own inputs) on every matrix the pipeline
+        # handed to gaussian_elimination while building these TTNOs
+        from props import c13
+        lits, where = [], []
+        for k, ob in enumerate(obs):
+            if isinstance(ob, dict):
+                for j, (lit, enc, _m) in enumerate(ob.get("sge_calls", [])):
+                    if lit is not None:
+                        lits.append(lit)
+                        where.append((k, j))
+        self._sge_agree = {}
+        self._sge_model = {}
+        self._sge_by_hash = {}
+        self._sge_stats = [len(lits), 0]
+        if lits:
+            exprs = [("ge_list [" + ";\n ".join(lits[i:i + 100]) + "]", len(lits[i:i + 100])) for i in range(0, len(lits), 100)]
+            vals = c13._coq_eval_ostr(ctx, exprs, 400)
+            flat = []
+            for v, (e, w) in zip(vals, exprs):
+                flat += ([v] * w) if isinstance(v, BaseException) else (list(v) if len(v) == w else [RuntimeError("count mismatch")] * w)
+            for (k, j), mv in zip(where, flat):
+                self._sge_model.setdefault(k, {})[j] = mv
+        for k, ob in enumerate(obs):
+            if isinstance(ob, dict) and "sge_calls" in ob:
+                agree = True
+                for j, (lit, enc, _m) in enumerate(ob["sge_calls"]):
+                    mv = self._sge_model.get(k, {}).get(j)
+                    if lit is None or isinstance(mv, BaseException) or mv != enc:
+                        agree = False
+                    else:
+                        self._sge_stats[1] += 1
+                self._sge_agree[lib.case_hash(cases[k])] = agree
+                self._sge_by_hash[lib.case_hash(cases[k])] = self._sge_model.get(k, {})
+        n += self._sge_stats[0]
+        ok += self._sge_stats[1]
+        if self._sge_stats[1] < self._sge_stats[0]:
+            fails.append(f"{self._sge_stats[0] - self._sge_stats[1]} gaussian_elimination call(s) of the pipeline differ from SGE/Model.v (see the correspondence detail)")
         self._inst = (n, ok, fails[:3])
         return out
 
@@ -344,6 +479,17 @@ class C12(Prop):
     def compare(self, case, ob, mo):
         if "harness_error" in ob:
             return f"harness error: {ob['harness_error']}"
+        sge = getattr(self, "_sge_by_hash", {}).get(lib.case_hash(case), {})
+        for j, (lit, enc, mat) in enumerate(ob.get("sge_calls", [])):
+            mv = sge.get(j)
+            if lit is None:
+                return f"pipeline call {j} of gaussian_elimination: {enc}"
+            if isinstance(mv, BaseException):
+                return f"pipeline call {j} of gaussian_elimination: model not evaluated: {str(mv)[:200]}"
+            if mv != enc:
+                from props import c13
+                return (f"pipeline call {j} of gaussian_elimination on {mat}: implementation "
+                        f"{c13.dec_result(enc) if not enc.startswith('EXC') else enc} ; model {c13.dec_result(mv)}")
         for e, m in mo.items():
             if "error" in m:
                 return f"edge {e}: certificate not evaluated: {m['error']}"
@@ -384,9 +530,28 @@ class C12(Prop):
 
     def classify(self, case, what, known):
         """C12-symbolic-suboptimal (proposed): an exact SGE TTNO whose bond on some edge EXCEEDS the rank, for a Hamiltonian with
-        at least two different coefficient symbols (counting "1"): the symbolic elimination cannot combine rows/columns that carry
+        at least two different coefficient symbols other than "1": the symbolic elimination cannot combine rows/columns that carry
         different symbols.  A bond below the rank, an inexact operator or an exception is never attributed."""
+        if getattr(self, "_sge_agree", {}).get(lib.case_hash(case)) is False:
+            # some gaussian_elimination call of this construction did NOT behave like the model of the unchanged algorithm:
+            # whatever is wrong here is not one of the recorded findings
+            return None
+        nsym = len({t[2] for t in case["terms"]})      # the unit "1" counts: a symbol next to rational coefficients is enough
+        kc = "C12-sge-symbolic-crash"
+        if kc in known and nsym >= 2 and "raised IndexError: list index out of range [in _remove_reduntant_v_hyperedges]" in what:
+            keys = [(t[0], t[1], t[2], tuple(sorted(map(tuple, t[3])))) for t in case["terms"]]
+            if len(set(keys)) == len(keys):
+                return kc
+        ki = "C12-sge-symbolic-inexact"
+        if ki in known and nsym >= 2:
+            keys = [(t[0], t[1], t[2], tuple(sorted(map(tuple, t[3])))) for t in case["terms"]]
+            import re as _re
+            mm = _re.search(r"bond dimension (\d+), (?:operator Schmidt rank|certified rank of Gamma_e is) (\d+)", what)
+            if len(set(keys)) == len(keys) and ("the SGE TTNO is not exact" in what or (mm and int(mm.group(1)) < int(mm.group(2)))):
+                return ki
         kid = "C12-symbolic-suboptimal"
+        # at least two different symbols OTHER than the unit "1" (the witness has g1, g2, g3): a Hamiltonian with unit/rational
+        # coefficients and at most one symbol is always eliminated optimally by the unchanged code
         if kid not in known or len({t[2] for t in case["terms"]}) < 2:
             return None
         import re
